@@ -6638,6 +6638,12 @@ class SSHServerConnection(SSHConnection):
             raise ProtocolError('Invalid direct UNIX domain channel '
                                 'open request') from None
 
+        if '\0' in dest_path and not dest_path.startswith('\0'):
+            # Only the part of a path name before a NUL would be used
+            # (names of abstract sockets begin with NUL and are exempt)
+            raise ChannelOpenError(OPEN_ADMINISTRATIVELY_PROHIBITED,
+                                   'Invalid destination path')
+
         if not self.check_key_permission('port-forwarding') or \
            not self.check_certificate_permission('port-forwarding'):
             raise ChannelOpenError(OPEN_ADMINISTRATIVELY_PROHIBITED,
